@@ -307,7 +307,7 @@ class AstChecks:
         vs += O.check_C02(inv, er, erased)
         vs += O.check_C03(er, res['cfgspec'].terms)
         vs += O.check_C15_C12(outv, to_view(res['H'].status(), I.P.defs), O.count_hooks(outv), inv)
-        vs += O.check_C15_debug(er, to_view(res['H'].status(), I.P.defs), outv)
+        vs += O.check_C15_debug(er, to_view(res['H'].status(), I.P.defs), outv, inv)
         vs += O.check_C05_names(er, res['cfgspec'].terms)
         vs += O.check_C06_block(outv, er) if isinstance(outv, dict) and outv.get('_t') == 'BlockStmt' else []
         vs += O.check_C06_program(outv, res['cfgspec'].prefix)
@@ -461,7 +461,7 @@ class ProgramScenario(AstChecksBase):
         vs += O.check_C02_program(inv, er, erased)
         vs += O.check_C03(er, res['cfgspec'].terms)
         vs += O.check_C15_C12(outv, to_view(res['H'].status(), I.P.defs), O.count_hooks(outv), inv)
-        vs += O.check_C15_debug(er, to_view(res['H'].status(), I.P.defs), outv)
+        vs += O.check_C15_debug(er, to_view(res['H'].status(), I.P.defs), outv, inv)
         if self.prologue:
             vs += O.check_C12_program(inv, outv, to_view(res['H'].status(), I.P.defs))
         vs += O.check_C05_names(er, res['cfgspec'].terms)
